@@ -49,6 +49,13 @@ MUTATION_DRILLS = [
     {"mutation": "table.cc OnBuildFinish: metadata_/syllabary_/index_ not looked up again after the image allocation",
      "fired": "VIOLATION table-build:over-budget + proof broken (translator: bf_rederive_after_image=false, C06_current_build_facts_sound fails)",
      "unit_tests": "87 passed (not detected by the test suite)"},
+    {"mutation": "table.cc BuildTailIndex: an entry whose extra code extends the previous entry's extra code reuses the previous "
+                 "entry's stored array but keeps its own larger size (trailing syllables read from the bytes that follow); "
+                 "drill of the follow-up round, /repo at 76ec084",
+     "fired": "VIOLATION enumeration:within-budget:lost / attached-to-another-code / invented (51 of 132 quick sources fail, among "
+              "them a 3-row source; an out-of-range syllable id 118 of 8 is reported as an invented code, not an exception); "
+              "before the parsers were hardened and the prefix-tail family added this ended as check-crashed",
+     "unit_tests": "not run (table_test's two long entries are not prefix-related)"},
     {"mutation": "git revert 44f49d3 (the fix: estimate back to 4096+32S+64N)",
      "fired": "VIOLATION table-build:over-budget + proof broken (translator: EstLinear)", "unit_tests": "87 passed (not detected by the test suite)"},
 ]
@@ -229,6 +236,40 @@ class Gen:
         rows = []
         for _ in range(n):
             rows.append((self.text(), rng.choice(prefixes) + rng.choice(extras), self.weight()))
+        return rows
+
+    def rows_prefix_tail(self, groups, sylls, order):
+        """groups of rows sharing a three-syllable prefix whose extra codes are prefixes / extensions of
+        each other (ka li mo nu, ka li mo nu pe, ka li mo nu pe qi, ...), adjacent in the source and given
+        adjacent weights, so that they are neighbours in the tail page in both sort modes.
+        order: 'short-first' (shorter code heavier and earlier), 'long-first', 'mixed'."""
+        rng = self.rng
+        grid = WEIGHT_GRID
+        rows = []
+        top = len(grid) - 1
+        for _ in range(groups):
+            prefix = [rng.choice(sylls) for _ in range(3)]
+            for _chain in range(rng.randint(1, 3)):
+                ln = rng.randint(2, 5)
+                full = [rng.choice(sylls) for _ in range(ln)]
+                if rng.random() < 0.3:
+                    full = [full[0]] * ln  # x, x x, x x x: every extra code a prefix of the next
+                chain = [full[:k] for k in range(1, ln + 1)]
+                if rng.random() < 0.3:
+                    chain.insert(rng.randrange(len(chain)), list(chain[rng.randrange(len(chain))]))  # a repeated code
+                o = order if order != "mixed" else rng.choice(["short-first", "long-first", "shuffled"])
+                if o == "long-first":
+                    chain.reverse()
+                elif o == "shuffled":
+                    rng.shuffle(chain)
+                same_text = rng.random() < 0.3
+                t0 = self.text()
+                for extra in chain:
+                    w = grid[top] if top >= 0 else b"1"
+                    top -= 1 if rng.random() < 0.85 else 0   # sometimes equal weights
+                    rows.append((t0 if same_text else self.text(), prefix + extra, w))
+                if rng.random() < 0.3:
+                    rows.append((self.text(), prefix[:rng.randint(1, 3)], self.weight()))  # a short code on the path
         return rows
 
     def rows_words(self, n, sylls):
@@ -412,6 +453,13 @@ SAN_ENV = {"ASAN_OPTIONS": "detect_leaks=0:abort_on_error=0:allocator_may_return
            "UBSAN_OPTIONS": "print_stacktrace=1"}
 
 
+def hexint_dec(x):
+    try:
+        return int(x)
+    except ValueError:
+        return -1
+
+
 def run_harness(exe, dirs, work, img_only=False, timeout=1500):
     man = os.path.join(work, "manifest.%d.txt" % (time.time_ns() % 10 ** 9))
     with open(man, "w") as fh:
@@ -424,14 +472,14 @@ def run_harness(exe, dirs, work, img_only=False, timeout=1500):
         f = l.split()
         if not f:
             continue
-        if f[0] == "case":
+        if f[0] == "case" and len(f) >= 3:
             if f[2] == "begin":
                 cur = {"lines": [], "main_exit": None, "probe_exit": None}
                 obs.append(cur)
-            elif f[2].startswith("main-exit="):
-                cur["main_exit"] = int(f[2].split("=")[1])
-            elif f[2].startswith("probe-exit="):
-                cur["probe_exit"] = int(f[2].split("=")[1])
+            elif f[2].startswith("main-exit=") and cur is not None:
+                cur["main_exit"] = hexint_dec(f[2].split("=")[1])
+            elif f[2].startswith("probe-exit=") and cur is not None:
+                cur["probe_exit"] = hexint_dec(f[2].split("=")[1])
             elif f[2] == "badcase":
                 obs.append({"lines": [], "main_exit": -1, "probe_exit": -1, "bad": True})
             continue
@@ -450,28 +498,33 @@ def kv(fields):
 
 
 def parse_obs(lines):
-    """common structure of the model's and the implementation's observation lines"""
+    """common structure of the model's and the implementation's observation lines; a line that does
+    not have the expected shape is kept in `flags` (for the implementation that is itself a failing
+    observation), never an exception"""
     o = {"hdr": {}, "probe": {}, "syl": [], "ent": [], "qry": {}, "rev": {}, "flags": []}
     for f in lines:
-        t = f[0]
-        if t == "hdr":
-            o["hdr"].update(kv(f[1:]))
-        elif t == "probe":
-            o["probe"].update(kv(f[1:]))
-        elif t == "syl":
-            o["syl"].append(f[1])
-        elif t == "ent":
-            o["ent"].append(tuple(f[1:]))
-        elif t == "qry":
-            o["qry"][int(f[1])] = {"n": f[2], "ent": []}
-        elif t == "qent":
-            o["qry"][int(f[1])]["ent"].append(tuple(f[2:]))
-        elif t == "rev":
-            o["rev"][int(f[1])] = f[2]
-        elif t == "revdb":
-            o["hdr"].update(kv(f[1:]))
-        else:
-            o["flags"].append(" ".join(f))
+        try:
+            t = f[0]
+            if t == "hdr":
+                o["hdr"].update(kv(f[1:]))
+            elif t == "probe":
+                o["probe"].update(kv(f[1:]))
+            elif t == "syl" and len(f) == 2:
+                o["syl"].append(f[1])
+            elif t == "ent" and len(f) in (4, 5):
+                o["ent"].append(tuple(f[1:]))
+            elif t == "qry" and len(f) == 3:
+                o["qry"][int(f[1])] = {"n": f[2], "ent": []}
+            elif t == "qent" and len(f) in (5, 6):
+                o["qry"][int(f[1])]["ent"].append(tuple(f[2:]))
+            elif t == "rev" and len(f) == 3:
+                o["rev"][int(f[1])] = f[2]
+            elif t == "revdb":
+                o["hdr"].update(kv(f[1:]))
+            else:
+                o["flags"].append("unexpected line: " + " ".join(f)[:200])
+        except (ValueError, IndexError, KeyError):
+            o["flags"].append("malformed line: " + " ".join(f)[:200])
     return o
 
 
@@ -508,8 +561,35 @@ def canon_entries(ents, sort_original):
     return out
 
 
+def hexint(b):
+    try:
+        return int(b, 16)
+    except ValueError:
+        return -1
+
+
 def impl_ents(raw):
-    return [(t, ids, int(b, 16)) for (t, ids, b) in raw]
+    return [(t, ids, hexint(b)) for (t, ids, b) in raw]
+
+
+def decode_entry(t, ids, b, got_sylls):
+    """one `ent`/`qent` observation of the implementation -> (text, code as syllables, weight bits),
+    or None when a field is malformed or a syllable id is outside the table's own syllabary"""
+    try:
+        text = unhx(t)
+        code = []
+        if ids != "-":
+            for x in ids.split("."):
+                i = int(x)
+                if not 0 <= i < len(got_sylls):
+                    return None
+                code.append(got_sylls[i])
+        bits = int(b, 16)
+        if not 0 <= bits < 1 << 32:
+            return None
+        return (text, tuple(code), bits)
+    except (ValueError, IndexError, TypeError):
+        return None
 
 
 def model_ents(raw):
@@ -533,19 +613,25 @@ def oracle(case, io):
     if io["hdr"].get("load") != "1":
         return [("not-loadable", "compile=%s load=%s: the compiled table cannot be loaded, every row is lost"
                  % (io["hdr"].get("compile"), io["hdr"].get("load")))]
+    if io["flags"]:
+        bad.append(("malformed-observation", "the harness printed something that is not an observation: %s" % io["flags"][0]))
     sylls = sorted({s for (_, c, _) in rows for s in c})
-    got_sylls = [unhx(h) for h in io["syl"]]
+    try:
+        got_sylls = [unhx(h) for h in io["syl"]]
+    except ValueError:
+        return bad + [("syllabary", "syllabary line is not hexadecimal")]
     if got_sylls != sylls:
         bad.append(("syllabary", "syllabary differs from the sorted set of source syllables"))
         return bad
     ents = []
     for (t, ids, b) in io["ent"]:
-        try:
-            code = tuple(got_sylls[int(x)] for x in ids.split(".")) if ids != "-" else ()
-        except (ValueError, IndexError):
-            bad.append(("invented", "enumerated entry with an invalid syllable id %s" % ids))
+        d = decode_entry(t, ids, b, got_sylls)
+        if d is None:
+            if not any(k == "invented" for (k, _) in bad):
+                bad.append(("invented", "enumerated entry text=%s carries a code that is no sequence of the table's syllables "
+                            "(ids %s, %d syllables in the table): an invented / foreign code" % (t, ids, len(got_sylls))))
             continue
-        ents.append((unhx(t), code, int(b, 16)))
+        ents.append(d)
     src, got = {}, {}
     for (t, c, w) in rows:
         src.setdefault((t, c), []).append(stored_bits(stod_weight(w)))
@@ -612,9 +698,17 @@ def oracle(case, io):
             exp = sorted((t, c) for (t, c, _) in ents if c == qt)
         else:
             exp = sorted((t, c) for (t, c, _) in ents if len(c) > 3 and c[:3] == qt[:3])
-        gotq = []
+        gotq, foreign = [], None
         for (t, ids, b) in r["ent"]:
-            gotq.append((unhx(t), tuple(got_sylls[int(x)] for x in ids.split("."))))
+            d = decode_entry(t, ids, b, got_sylls)
+            if d is None:
+                foreign = (t, ids)
+                continue
+            gotq.append((d[0], d[1]))
+        if foreign is not None:
+            bad.append(("invented", "QueryPhrases(%s) returns text=%s under ids %s, which is no sequence of the table's syllables"
+                        % (b" ".join(q).decode("latin-1"), foreign[0], foreign[1])))
+            break
         if sorted(gotq) != exp:
             bad.append(("query", "QueryPhrases(%s) returns %d entries, the enumeration has %d for it"
                         % (b" ".join(q).decode("latin-1"), len(gotq), len(exp))))
@@ -675,6 +769,11 @@ def plan_cases(g, rng, tier):
     for _ in range(8 if not big else 24):
         s = g.syllables(rng.choice([2, 4, 9, 30]))
         add("dense-tail", [g.rows_dense_tail(rng.choice([10, 60, 250] + ([1500] if big else [])), s)])
+    for i in range(12 if not big else 36):
+        # prefix-related extra codes next to each other in the tail page, both sort modes
+        s = g.syllables(rng.choice([1, 2, 3, 6, 15]))
+        add("prefix-tail", [g.rows_prefix_tail(rng.choice([1, 2, 4, 12]), s, ["short-first", "long-first", "mixed"][i % 3])],
+            so=(i % 2 == 0), columns=[None])
     for _ in range(8 if not big else 24):
         s = g.syllables(rng.choice([2, 5, 12, 40]))
         add("words", [g.rows_words(rng.choice([5, 40, 200] + ([1500] if big else [])), s)])
@@ -781,7 +880,7 @@ def run(ctx):
         imgs = []
         for o in obs:
             p = parse_obs(o["lines"])["probe"]
-            imgs.append(int(p.get("img", "0")))
+            imgs.append(max(0, hexint_dec(p.get("img", "0"))))
         _, blocks, _ = run_model(rmodel, [model_line(c, im) for c, im in zip(cs, imgs)])
         out = []
         for b in blocks:
@@ -846,7 +945,7 @@ def run(ctx):
         io = parse_obs(o["lines"])
         io["main_exit"], io["probe_exit"] = o["main_exit"], o["probe_exit"]
         impl.append(io)
-    imgs = [int(io["probe"].get("img", io["hdr"].get("strtab", "0"))) for io in impl]
+    imgs = [max(0, hexint_dec(io["probe"].get("img", io["hdr"].get("strtab", "0")))) for io in impl]
     rcm, model, merr = run_model(rmodel, [model_line(c, im) for c, im in zip(cases, imgs)], timeout=2400)
     timing["model_s"] = round(time.time() - t1, 1)
     t1 = time.time()
@@ -875,7 +974,10 @@ def run(ctx):
         if mo["flags"]:
             stats["model_inconsistent"] += 1
         over = mh.get("build") != "ok"
-        fails = oracle(c, io)
+        try:
+            fails = oracle(c, io)
+        except Exception as ex:  # an observation the oracle cannot even read is a failing observation
+            fails = [("malformed-observation", "the implementation's output could not be interpreted: %r" % (ex,))]
         crashed = io["main_exit"] not in (0, None)
         if crashed and not fails:
             fails = [("crash", "the compiling process ended with status %s" % io["main_exit"])]
